@@ -62,6 +62,16 @@ def _guard_edges(f, accept_bang=True, accept_xwa=True, accept_noxb=False, idx0=T
             out.add(edge(True))
         if accept_noxb and is_call(c, "ex_lbuf"):
             out.add(edge(False))
+        # the same tests spelled as comparisons with 0 / NULL
+        for v in (True, False):
+            nn = nullness(c, v)
+            if nn is None or nn[0] is c:
+                continue
+            x_ = strip_casts(nn[0])
+            if accept_xwa and x_["k"] == "ref" and x_["name"] == "xwa" and not nn[1]:
+                out.add(edge(v))
+            if accept_noxb and is_call(x_, "ex_lbuf") and nn[1]:
+                out.add(edge(v))
     return out
 
 
@@ -372,6 +382,38 @@ def _expr_interval(prog, f, e, at, depth):
             if others:
                 return None
             return (i0, K - 1) if inside else (i0, K)
+        # `i = a; while (i < K) { ..; i++; }` with the use inside the loop
+        for lp in f.walk():
+            if lp["k"] != "while" or lp.get("c") is None:
+                continue
+            c_ = strip_casts(lp["c"])
+            if c_["k"] == "bin" and c_["op"] == "&&":
+                c_ = strip_casts(c_["l"])
+            if not (c_["k"] == "bin" and c_["op"] == "<" and key(strip_casts(c_["l"])) == e["name"] and cval(c_["r"]) is not None):
+                continue
+            if not any(a["id"] == lp["id"] for a in f.ancestors(at["id"])):
+                continue
+            ins = [n for n, lv, op, rhs in stores(lp["body"]) if lv["k"] == "ref" and lv["name"] == e["name"]]
+            outs = [(n, rhs) for n, lv, op, rhs in stores(f.body) if lv["k"] in ("ref", "var") and lv.get("name") == e["name"]
+                    and not any(x["id"] == n["id"] for x in walk(lp))]
+            if ins and all(n.get("op") in ("post++", "pre++") for n in ins) and len(outs) == 1 and \
+                    outs[0][1] is not None and cval(outs[0][1]) is not None and \
+                    not f.cfg.search(f.cfg.pos(ins[0]), lambda x: x == at["id"], avoid=lambda x: x == c_["id"]):
+                return (cval(outs[0][1]), cval(c_["r"]) - 1)
+        # a parameter of a static helper: what its call sites pass
+        pn_ = [q["name"] for q in f.params]
+        if e.get("cat") == "param" and e["name"] in pn_ and getattr(f, "static", False) and depth < 3 and \
+                not any(lv["k"] == "ref" and lv["name"] == e["name"] for n, lv, op, rhs in stores(f.body)):
+            sites = [(h, c) for h in prog.funcs.values() for c in h.calls(f.name) if prog.resolve(h, c["fn"]) is f]
+            lo = hi = None
+            for h, c in sites:
+                iv = _expr_interval(prog, h, strip_casts(c["args"][pn_.index(e["name"])]), c, depth + 1)
+                if iv is None:
+                    return None
+                lo = iv[0] if lo is None else min(lo, iv[0])
+                hi = iv[1] if hi is None else max(hi, iv[1])
+            if sites:
+                return (lo, hi)
         # variable assigned once from a call
         srcs = [rhs for n, lv, op, rhs in stores(f.body)
                 if op in ("=", "init") and lv.get("name") == e["name"] and lv["k"] in ("ref", "var")]
